@@ -43,7 +43,7 @@ theorem tie_sameNode_returns : C17.sameNodeReturns = ["true, err", "false, err",
 /-- the mode dispatch of doMigrate is the rule `effDirect` implements: explicit EvictDirectly, or empty mode with the
     default EvictDirectly -/
 theorem tie_direct_dispatch : C17.directDispatchCond =
-    "job.Spec.Mode == sev1alpha1.PodMigrationJobModeEvictionDirectly || (job.Spec.Mode == \"\" && r.args.DefaultJobMode == string(sev1alpha1.PodMigrationJobModeEvictionDirectly))" := by decide
+    "job.Spec.Mode == sev1alpha1.PodMigrationJobModeEvictionDirectly || (job.Spec.Mode == \"\" && r.args.DefaultJobMode == string(sev1alpha1.PodMigrationJobModeEvictionDirectly))" := by rfl
 
 /-- `interpreterImpl.GetReservation` = Client.Get, on NotFound one more Get through the APIReader (model: `X.getResv`
     issues a second read exactly when the first answered NotFound) -/
